@@ -188,3 +188,84 @@ theorem join_key {l r t : TType} (h : join l r = some t) : t.key = l.key ∧ t.g
   · simp at h
 
 end HailVerif.TableType
+
+namespace HailVerif.TableType
+open HailVerif.ExprIR (HType)
+
+theorem keyFields_names (row : FieldList) : ∀ (ks : List String) (fs : FieldList), keyFields row ks = some fs → names fs = ks := by
+  intro ks
+  induction ks with
+  | nil => intro fs h; simp [keyFields] at h; subst h; rfl
+  | cons k r ih =>
+    intro fs h
+    simp only [keyFields] at h
+    split at h
+    · rename_i ty fs' _ h2
+      simp only [Option.some.injEq] at h; subst h
+      simp [names, List.map_cons]
+      simpa [names] using ih fs' h2
+    · simp at h
+
+/-- equal key types (names and types, in key order) mean equal keys -/
+theorem key_eq_of_keyType_eq {t t0 : TType} {kf : FieldList} (h0 : keyType t0 = some kf) (h : keyType t = keyType t0) :
+    t.key = t0.key := by
+  have a := keyFields_names t0.row t0.key kf h0
+  have b := keyFields_names t.row t.key kf (by rw [← h0, ← h]; rfl)
+  rw [← a, ← b]
+
+/-- **`TableUnion` is always well typed**: whatever the front end accepts, all children it hands to `TableUnion` have the same
+row type and key, so the type the IR implies is the type the table reports. -/
+theorem unionIR_eq_reported (unify : Bool) (ts : List TType) : unionIR unify ts = unionReported unify ts := by
+  unfold unionIR unionReported
+  cases hc : unionChildren unify ts with
+  | none => rfl
+  | some cs =>
+    cases cs with
+    | nil => rfl
+    | cons c0 cr =>
+      simp only [Option.bind_some, List.head?_cons]
+      suffices h : cr.all (fun c => c.row == c0.row && c.key == c0.key) = true by simp [h]
+      unfold unionChildren at hc
+      cases ts with
+      | nil => simp at hc
+      | cons t0 rest =>
+        simp only [] at hc
+        split at hc
+        · simp at hc
+        · rename_i hk
+          simp only [Bool.or_eq_true, List.any_eq_true, not_or, not_exists, not_and,
+            Option.isNone_iff_eq_none, bne_iff_ne, ne_eq, Decidable.not_not] at hk
+          obtain ⟨hkeys, hsome⟩ := hk
+          obtain ⟨kf, hkf⟩ : ∃ kf, keyType t0 = some kf := by
+            cases h : keyType t0 with
+            | none => exact absurd h (by simpa using hsome)
+            | some kf => exact ⟨kf, rfl⟩
+          have keyeq : ∀ t ∈ rest, t.key = t0.key := fun t ht => key_eq_of_keyType_eq hkf (hkeys t ht)
+          split at hc
+          · -- unify = false
+            split at hc
+            · rename_i hall
+              simp only [Option.some.injEq, List.cons.injEq] at hc
+              obtain ⟨rfl, rfl⟩ := hc
+              simp only [List.all_eq_true, Bool.and_eq_true, beq_iff_eq]
+              intro c hcm
+              exact ⟨by simpa using (List.all_eq_true.mp hall) c hcm, keyeq c hcm⟩
+            · simp at hc
+          · split at hc
+            · rename_i hall
+              simp only [Option.some.injEq, List.cons.injEq] at hc
+              obtain ⟨rfl, rfl⟩ := hc
+              simp only [List.all_eq_true, Bool.and_eq_true, beq_iff_eq]
+              intro c hcm
+              exact ⟨by simpa using (List.all_eq_true.mp hall) c hcm, keyeq c hcm⟩
+            · split at hc
+              · simp at hc
+              · rename_i fs _
+                simp only [List.map_cons, Option.some.injEq, List.cons.injEq] at hc
+                obtain ⟨rfl, rfl⟩ := hc
+                simp only [List.all_eq_true, List.mem_map, Bool.and_eq_true, beq_iff_eq]
+                rintro c ⟨t, ht, rfl⟩
+                refine ⟨?_, keyeq t ht⟩
+                simp only [hkeys t ht, hkf]
+
+end HailVerif.TableType
